@@ -125,6 +125,8 @@ def check(chk: Check) -> None:
     chk.undecided += ["which concrete statements overflow; sizes beyond the enumerated ones"]
     chk.rule("C18.REF.exact-fit-histories", "3-slot prefix/datatype table, every 2-statement history over 5 keys (first statement up to renaming) + a third statement: output decodes to the input", floor=400)
     for res in pmap(run, cases() + exact_fit_histories(chk.tier), min_parallel=8):
+        if res is None:
+            continue
         c = res["case"]
         inst = f"{c['integ']} table={c['table']} size={c['size']} physical={c['physical']}"
         for p in res["paths"]:
